@@ -1,6 +1,7 @@
 """C10 — eager evaluation returns exactly the lazy view; composition is unobservable."""
-import itertools, re
+import itertools, re, sys
 from collections import Counter
+from harness.props import c11
 
 ID = "C10"
 MODEL_MODULES = ["Base", "Index", "Eval"]
@@ -17,12 +18,15 @@ CLAIM = dict(
           "the same result as the composed lazy view. Tied to the C++ by 22 two-level view compositions (indexing views, ufuncs, "
           "reductions, accumulate, matmul) over all small shapes: array::eval with RowMajorResolver / ColumnMajorResolver (raw "
           "buffers compared), supplied output, inner-first evaluation through both layouts, against element-wise reads of the "
-          "lazy view and against the extracted evaluator model."),
+          "lazy view and against the extracted evaluator model; and, for operands of all 19 ndarray kinds (fixed, bounded and clipped buffers "
+          "and shapes) in kind pairs under one- and two-sided broadcasting and 3-operand where, by C11's kind-pair driver whose rt= / new= / "
+          "old= fields state C10 directly (shape and all elements of eval(view) with the default resolver of array::fn and with the "
+          "legacy resolver of eval(view) equal the lazy view's)."),
     ref="5.10", technique="Coq proof (write-fold invariant + C01 injectivity) + two-stage differential correspondence",
     extra="Result kinds other than the run-time shaped ndarray_t (fixed / hybrid / clipped result objects whose resize can be refused) are C11's subject; here the resize is assumed to succeed (theorem hypothesis ashape out = vshape v).")
 RULE = ("every composition id x every operand shape of its admissible dimensions (dim 1..3, extents 1..3; thorough: extents 1..4 and dim 4 "
         "for the dimension-generic compositions) x 1-2 seeded data fillings; non-trivial = result has >= 2 elements and dim >= 2; "
-        "distinct = distinct case lines")
+        "distinct = distinct case lines; plus every case of C11's kind-pair (19 x 6 kinds x 6 broadcasting views) and where streams")
 THEOREM_STATUS = {"proved": ["C10_eval_elements", "C10_eval_default_dynamic", "C10_row_major_buffer", "C10_skips_iff_shape_differs",
                              "C10_composition_unobservable"], "partial": [], "refuted": []}
 ASSUMPTIONS = ["the lazy view's own elements are taken as observed from the implementation (their correctness is C03-C08/C16/C17)",
@@ -39,7 +43,24 @@ def drivers(tier):
         specs.append(("c10.cpp", "ndebug", ("-DPART=%d" % p, "-DNPART=%d" % NPART)))
     specs.append(("c10.cpp", "asan", ("-DPART=0", "-DNPART=2")))
     specs.append(("c10.cpp", "asan", ("-DPART=1", "-DNPART=2")))
-    return {"c10": specs}
+    # operands of every ndarray kind (fixed / bounded / clipped buffers and shapes): C11's kind-pair and where driver, whose
+    # "rt= | new= | old=" fields are exactly C10's statement (shape and every element of eval(view) equal the lazy view's)
+    return {"c10": specs, "c11b": c11.drivers(tier)["c11b"]}
+
+
+def model_for(dkey):
+    return c11 if dkey.startswith("c11") else sys.modules[__name__]
+
+
+def _f(s):
+    return [" ".join(x.split()) for x in s.split("|")]
+
+
+def equal(impl, spec):
+    if "| new=" in spec or "| new=" in impl:
+        fi, fs = _f(impl), _f(spec)
+        return len(fi) == len(fs) and fi[3:] == fs[3:]       # rt= (the lazy view), new= and old= (the two eager evaluations)
+    return "".join(impl.split()) == "".join(spec.split())
 
 
 def A(shape, data):
@@ -63,10 +84,13 @@ def gen_cases(rng, tier):
                 a = [rng.randint(-9, 9) for _ in range(n)]
                 b = [rng.randint(-9, 9) for _ in range(n)]
                 out.append(("compositions", "ev I:%d %s %s" % (cid, A(s, a), A(s, b)), "c10"))
+    for stream, line, key in c11.gen_cases(rng, tier):
+        if key == "c11b": out.append(("kinds/" + stream, line, key))
     return out
 
 
 def nontrivial(line):
+    if not line.startswith("ev "): return True
     m = re.search(r"A:([0-9,]*):", line)
     sh = [int(x) for x in m.group(1).split(",") if x]
     return len(sh) >= 2 and sum(1 for x in sh if x > 1) >= 1
@@ -75,6 +99,7 @@ def nontrivial(line):
 def distribution(streams):
     comp = Counter(); dims = Counter()
     for _, line, _ in streams:
+        if not line.startswith("ev "): comp[line.split(" ")[0]] += 1; continue
         comp[line.split(" ")[1]] += 1
         m = re.search(r"A:([0-9,]*):", line)
         dims[str(len(m.group(1).split(",")))] += 1
@@ -82,4 +107,9 @@ def distribution(streams):
 
 
 def classify(line, impl, spec, model):
+    if line.startswith("ev "): return None
+    fi, fs = _f(impl), _f(spec)
+    # the legacy resolver of array::eval(view) (no resolver argument): everything but the old= field is right
+    if len(fi) == len(fs) and fi[3:-1] == fs[3:-1] and fi[-1].startswith("old="):
+        return "legacy-eval_t-no-room:%s" % line.split(" ")[1][2:]
     return None
